@@ -19,6 +19,20 @@ set gives the last snapshot -/
 theorem reported_changes_replay_to_last_snapshot (snaps : List (List Nat)) :
     ∀ x, x ∈ (watchPeers [] snaps).foldl applyEv [] ↔ x ∈ snaps.getLastD [] := membership_replay snaps
 
+/-- the same holds for EVERY watcher of a topic, whatever earlier watchers of the same adapter saw (a
+store closed and opened again on one instance watches the same cached topic object): it is told about
+the peers that are there when it starts (`WatchPeers` after the `fix:` commit, finding F24) -/
+theorem every_watcher_is_told_about_present_peers («shared» : List Nat) (snaps : List (List Nat)) :
+    ∀ x, x ∈ (laterWatcher false «shared» snaps).foldl applyEv [] ↔ x ∈ snaps.getLastD [] :=
+  membership_replay snaps
+
+/-- Refutation witness for the tree before that repair: the membership list lived in the topic object
+shared by all watchers; a second watcher started while peers 1 and 2 were present reported nothing, so
+a reopened store never exchanged heads with them (replayed on the real adapter: corpus/C20/f24). -/
+theorem shared_membership_hid_present_peers_from_a_later_watcher :
+    laterWatcher true [1, 2] [[1, 2]] = [] ∧
+    (laterWatcher false [1, 2] [[1, 2]]).foldl applyEv [] = [1, 2] := by decide
+
 /-- each change is reported exactly once (duplicate-free snapshots) -/
 theorem each_change_reported_once (a b : List Nat) (ha : a.Nodup) (hb : b.Nodup) (x : Nat) :
     (x ∈ b → x ∉ a → (watchPeers a [b]).count (.join x) = 1 ∧ (watchPeers a [b]).count (.leave x) = 0) ∧
